@@ -1,7 +1,43 @@
 (** C11 — HiddenFS listings respect hidden paths; no relocation by renaming an
-    ancestor (lexical part).  RemoveAll on real trees: see Props/C11 world part. *)
+    ancestor (lexical part); the effect of RemoveAll.
+
+    Proved here:
+    - listings: [C11_listing], [C11_visible_spec] (every content, hidden set,
+      count sequence);
+    - renaming an ancestor of a hidden path is rejected: [C11_no_relocation_lexical];
+    - the EFFECT of [HiddenFS.RemoveAll] on the concrete model
+      [a_removeall (hiddenfs hs0 osfs) name] (Proofs/HiddenRemoveAll.v):
+      [C11_removeall_effect] (and [C11_removeall_effect_spied] through the spy
+      layer on a quiet world, [C11_removeall_effect_decidable] with every side
+      condition as a computation): the call returns nil; entries at/below a
+      hidden path are untouched; entries outside the removed tree are untouched
+      except for the mtime of its parent directory; below [name] exactly the
+      directories that lexically lead to a hidden path remain (same mode and
+      owner, possibly a new mtime) and everything else is gone;
+      [C11_removeall_plain]: with nothing hidden at/below [name] the whole tree
+      goes; [C11_removeall_remaining]: what remains at/below [name] is hidden or
+      a directory leading to a hidden path; [C11_removeall_chain]: an existing
+      hidden entry is untouched and stays reachable; [C11_removeall_missing] (a missing name: nil, nothing changes, fix
+      D8); [C11_removeall_hidden] (a hidden name: ErrHiddenNotExist, nothing
+      changes).
+    Side conditions of the effect theorems: every hidden path absolute
+    (stored cleaned by [hidden_norm]); the tree well formed ([wf]) with keys
+    made of proper path elements ([keys_good]); [name] absolute, cleaned,
+    existing (hence no symlink on the way to it), lexically not at/below a
+    hidden path, and not the root unless the root is above a hidden path
+    (removing "/" fails with EBUSY as for os.RemoveAll); every entry at/below
+    [name] less than [tree_fuel] = 4096 levels below it (the walk's recursion
+    budget, a model artefact).  Symlinks may occur anywhere at/below [name],
+    also below hidden paths: they are removed like files and never followed.
+    Note: "the directories leading to a hidden path" is lexical - they are
+    kept also when the hidden path does not exist
+    ([C11_removeall_missing_hidden_example]).
+    Not covered: names that are relative, unclean or reached through symlinks
+    (known findings K5, D9, D10). *)
+From stdpp Require Import gmap.
 From BFS Require Import Layers.Call Layers.LayerSpec Layers.HiddenList.
 From BFS Require Import Proofs.HiddenFacts Proofs.HiddenListFacts.
+From BFS Require Import Fs.FsSpec Layers.Api Backup.History Proofs.HiddenRemoveAll.
 
 (** the entries HiddenFS should show, in directory order *)
 Definition visible (dirp : str) (hs : list str) (content : list str) : list str :=
@@ -58,3 +94,157 @@ Example C11_example :
   hidden_list_calls [47;118;97;114] [[47;118;97;114;47;98]] [1%Z; 1%Z; 1%Z] [[98]; [98;50]; [97]]
   = [LOk [[98;50]]; LOk [[97]]; LEof []].
 Proof. vm_compute. reflexivity. Qed.
+
+(* ------------------------------------------------------------------ *)
+(** * The effect of RemoveAll *)
+
+(** [RemoveAll name] through HiddenFS, [name] existing and not hidden.
+    [hidden_key hs k]: [k] is the key of a hidden path or lies below one;
+    [anc_key hs k]: [k] is a proper ancestor of the key of a hidden path;
+    [under kn k]: [k] is [kn] or lies below it;
+    [onode_eqv]/[meta_eq_nomt]: equal up to the mtime of a directory. *)
+Theorem C11_removeall_effect :
+  forall hs0 name w n,
+  Forall (fun h => is_abs h = true) hs0 ->
+  wf (st_fs (w_st w)) -> keys_good (st_fs (w_st w)) ->
+  abs_cleaned name -> st_fs (w_st w) !! comps name = Some n ->
+  ~ hidden_key (hidden_norm hs0) (comps name) ->
+  (comps name <> [] \/ anc_key (hidden_norm hs0) (comps name)) ->
+  (forall k n', under (comps name) k -> st_fs (w_st w) !! k = Some n' ->
+                (length k < length (comps name) + tree_fuel)%nat) ->
+  exists s',
+    a_removeall (hiddenfs hs0 osfs) name w = (MOk tt, setst w s') /\
+    let hs := hidden_norm hs0 in
+    let kn := comps name in
+    let f := st_fs (w_st w) in
+    let f' := st_fs s' in
+    forall k,
+      (hidden_key hs k -> f' !! k = f !! k) /\
+      (~ under kn k ->
+         onode_eqv (f !! k) (f' !! k) /\ (k <> removelast kn -> f' !! k = f !! k)) /\
+      (under kn k -> ~ hidden_key hs k -> anc_key hs k ->
+         forall m, f !! k = Some (Dir m) ->
+         exists m', f' !! k = Some (Dir m') /\ meta_eq_nomt m m') /\
+      (under kn k -> ~ hidden_key hs k -> (~ anc_key hs k \/ ~ is_dir_at f k) ->
+         f' !! k = None).
+Proof. exact hidden_removeall_effect. Qed.
+Print Assumptions C11_removeall_effect.
+
+(** the same through the spy layer, on a world without crash point and faults *)
+Theorem C11_removeall_effect_spied :
+  forall t hs0 name w n,
+  Forall (fun h => is_abs h = true) hs0 ->
+  wf (st_fs (w_st w)) -> keys_good (st_fs (w_st w)) ->
+  abs_cleaned name -> st_fs (w_st w) !! comps name = Some n ->
+  ~ hidden_key (hidden_norm hs0) (comps name) ->
+  (comps name <> [] \/ anc_key (hidden_norm hs0) (comps name)) ->
+  (forall k n', under (comps name) k -> st_fs (w_st w) !! k = Some n' ->
+                (length k < length (comps name) + tree_fuel)%nat) ->
+  w_crash w = None -> w_faults w = [] ->
+  exists s',
+    a_removeall (spy t (hiddenfs hs0 osfs)) name w =
+      (MOk tt, mkWorld s' (mkTcall t (PM MRemoveAll) name [] None :: w_trace w)
+                       (N.succ (w_ticks w)) None [] (w_infos w)) /\
+    removeall_effect (hidden_norm hs0) (comps name) (st_fs (w_st w)) (st_fs s').
+Proof. exact hidden_removeall_effect_spied. Qed.
+Print Assumptions C11_removeall_effect_spied.
+
+(** every side condition as a computation ([tree_okb]: well formed, good
+    keys, depth below [tree_fuel]) *)
+Theorem C11_removeall_effect_decidable :
+  forall hs0 name w,
+  forallb is_abs hs0 = true ->
+  cleanedb name && is_abs name = true ->
+  tree_okb (st_fs (w_st w)) (comps name) tree_fuel = true ->
+  (match st_fs (w_st w) !! comps name with Some _ => true | None => false end) = true ->
+  khidb (hidden_norm hs0) (comps name) = false ->
+  (negb (key_eqb (comps name) []) || kancb (hidden_norm hs0) (comps name)) = true ->
+  exists s',
+    a_removeall (hiddenfs hs0 osfs) name w = (MOk tt, setst w s') /\
+    removeall_effect (hidden_norm hs0) (comps name) (st_fs (w_st w)) (st_fs s').
+Proof. exact hidden_removeall_effect_b. Qed.
+Print Assumptions C11_removeall_effect_decidable.
+
+(** nothing hidden at/below [kn]: the whole tree goes *)
+Theorem C11_removeall_plain :
+  forall hs kn f f',
+  removeall_effect hs kn f f' -> ~ hidden_key hs kn -> ~ anc_key hs kn ->
+  forall k, under kn k -> f' !! k = None.
+Proof. exact removeall_effect_plain. Qed.
+Print Assumptions C11_removeall_plain.
+
+(** what remains at/below [name] is hidden or a directory leading to a hidden path *)
+Theorem C11_removeall_remaining :
+  forall hs kn f f',
+  removeall_effect hs kn f f' ->
+  forall k n', under kn k -> f' !! k = Some n' ->
+  hidden_key hs k \/ (anc_key hs k /\ is_dir_at f k /\ is_dir_at f' k).
+Proof. exact removeall_effect_remaining. Qed.
+Print Assumptions C11_removeall_remaining.
+
+(** an existing hidden entry is untouched and every directory leading to it
+    is still a directory *)
+Theorem C11_removeall_chain :
+  forall hs kn f f' h n,
+  removeall_effect hs kn f f' -> wf f ->
+  In h hs -> f !! comps h = Some n -> ~ hidden_key hs kn ->
+  f' !! comps h = Some n /\
+  forall pre r, r <> [] -> comps h = pre ++ r -> is_dir_at f' pre.
+Proof. exact removeall_effect_chain. Qed.
+Print Assumptions C11_removeall_chain.
+
+(** a missing name: nil, nothing changes (fix D8) *)
+Theorem C11_removeall_missing :
+  forall hs0 name w,
+  Forall (fun h => is_abs h = true) hs0 ->
+  direct (st_fs (w_st w)) name -> st_fs (w_st w) !! comps name = None ->
+  ~ hidden_key (hidden_norm hs0) (comps name) ->
+  a_removeall (hiddenfs hs0 osfs) name w = (MOk tt, w).
+Proof. exact hidden_removeall_missing. Qed.
+Print Assumptions C11_removeall_missing.
+
+(** a hidden name: not found, nothing changes *)
+Theorem C11_removeall_hidden :
+  forall hs0 name w,
+  Forall (fun h => is_abs h = true) hs0 ->
+  abs_cleaned name -> hidden_key (hidden_norm hs0) (comps name) ->
+  a_removeall (hiddenfs hs0 osfs) name w = (MErr (ELayer EHiddenNotExist), w).
+Proof. exact hidden_removeall_hidden. Qed.
+Print Assumptions C11_removeall_hidden.
+
+(** the vocabulary, against the boolean checks of the model *)
+Theorem C11_hidden_key_is_hidden :
+  forall hs k, Forall abs_cleaned hs -> good_key k ->
+  is_hidden (kpath k) hs = Some (khidb hs k) /\ (khidb hs k = true <-> hidden_key hs k) /\
+  is_parent_of_hidden (kpath k) hs = Some (kancb hs k) /\ (kancb hs k = true <-> anc_key hs k).
+Proof. exact hidden_key_vocabulary. Qed.
+Print Assumptions C11_hidden_key_is_hidden.
+
+(** non-vacuity: the theorem applies to RemoveAll "/a" on
+    { /, /a/, /a/d/, /a/d/g, /a/f, /a/h/, /a/h/s/, /a/h/s/x, /a/h/y, /a/l -> /a/h/s, /z }
+    with the hidden path "/a/h/s", and leaves { /, /a/, /a/h/, /a/h/s/, /a/h/s/x, /z } *)
+Example C11_removeall_example :
+  (exists s',
+     a_removeall (hiddenfs [RemoveAllExamples.p_ahs] osfs) RemoveAllExamples.p_a RemoveAllExamples.wA
+       = (MOk tt, setst RemoveAllExamples.wA s') /\
+     removeall_effect (hidden_norm [RemoveAllExamples.p_ahs]) (comps RemoveAllExamples.p_a)
+       (st_fs (w_st RemoveAllExamples.wA)) (st_fs s')) /\
+  (let '(r, w') := a_removeall (hiddenfs [RemoveAllExamples.p_ahs] osfs) RemoveAllExamples.p_a
+                     RemoveAllExamples.wA in
+   r = MOk tt /\
+   map fst (dump_fs w') = [[]; [[97]; [104]; [115]]; [[97]]; [[97]; [104]]; [[97]; [104]; [115]; [120]]; [[122]]]).
+Proof.
+  split; [exact RemoveAllExamples.removeall_effect_applies|]. vm_compute. split; reflexivity.
+Qed.
+
+(** observation: with the hidden path "/a/b/c" missing, RemoveAll "/a" on
+    { /, /a/, /a/b/, /a/f } returns nil and keeps /a/ and /a/b/ (the lexical
+    chain towards the hidden path); without hidden paths it removes /a/ *)
+Example C11_removeall_missing_hidden_example :
+  (let '(r, w') := a_removeall (hiddenfs [RemoveAllExamples.p_abc] osfs) RemoveAllExamples.p_a
+                     RemoveAllExamples.wB in
+   r = MOk tt /\ map fst (dump_fs w') = [[]; [[97]]; [[97]; [98]]]) /\
+  (let '(r, w') := a_removeall (hiddenfs [] osfs) RemoveAllExamples.p_a RemoveAllExamples.wB in
+   r = MOk tt /\ map fst (dump_fs w') = [[]]).
+Proof. vm_compute. repeat split; reflexivity. Qed.
+
